@@ -686,7 +686,11 @@ func (h *hioRun) op(n *ioNode) {
 		h.log = append(h.log, "clone "+n.kind)
 		h.nodes = append(h.nodes, &ioNode{kind: "clone", r: cl, bits: n.bits, posKnown: true, faulty: n.faulty, desc: "clone(" + n.desc + ")"})
 	case kind == 13: // byte view: io.Reader / io.ReadSeeker over the node
-		h.byteView(n)
+		if t.Intn(3) == 0 {
+			h.bufferPipe(n)
+		} else {
+			h.byteView(n)
+		}
 	case kind == 14: // bit copy into a buffer / a bit writer
 		h.copyOut(n)
 	default: // limit reader over a clone
@@ -900,6 +904,65 @@ func readAllBuf(r io.Reader, bs int, limit int) ([]byte, error) {
 		}
 	}
 	return out, nil
+}
+
+// bufferPipe pushes bits of the node through an in-memory bitio.Buffer in pieces of
+// tape-chosen sizes (1..130 bits in, 1..130 bits out, interleaved): what comes out
+// must be what went in, at any alignment of the buffer's read and write cursors.
+func (h *hioRun) bufferPipe(n *ioNode) {
+	L := int64(len(n.bits))
+	if L == 0 {
+		return
+	}
+	start := int64(h.t.Intn(int(L)))
+	total := L - start
+	if total > 2000 {
+		total = 2000
+	}
+	src := n.bits.Slice(start, start+total)
+	var b bitio.Buffer
+	var out model.Bits
+	in := int64(0)
+	sizes := []int64{1, 2, 3, 4, 5, 7, 8, 9, 15, 16, 17, 31, 32, 33, 56, 57, 60, 63, 64, 65, 71, 72, 127, 128, 129}
+	for steps := 0; steps < 400 && int64(len(out)) < total; steps++ {
+		if in < total && (h.t.Intn(2) == 0 || b.Len() == 0) {
+			w := sizes[h.t.Intn(len(sizes))]
+			if w > total-in {
+				w = total - in
+			}
+			piece := src.Slice(in, in+w)
+			if _, err := b.WriteBits(piece.Bytes(), w); err != nil {
+				h.violate("unexpected-error", "buffer", "Buffer.WriteBits(%d bits): %v", w, err)
+				return
+			}
+			in += w
+			continue
+		}
+		r := sizes[h.t.Intn(len(sizes))]
+		p := make([]byte, r/8+2)
+		cnt, err := b.ReadBits(p, r)
+		if err != nil && !isEOF(err) {
+			h.violate("unexpected-error", "buffer", "Buffer.ReadBits(%d bits): %v", r, err)
+			return
+		}
+		if cnt < 0 || cnt > r {
+			h.violate("count-out-of-range", "buffer", "Buffer.ReadBits asked %d bits, got count %d", r, cnt)
+			return
+		}
+		out = append(out, model.FromBytes(p, cnt)...)
+	}
+	h.log = append(h.log, fmt.Sprintf("%s: %d bits from %d through Buffer in pieces", n.kind, total, start))
+	simrt.Probe(probeWriter)
+	if int64(len(out)) > in {
+		h.violate("bits-beyond-end", "buffer", "bitio.Buffer gave back %d bits after only %d were written", len(out), in)
+		return
+	}
+	for i := range out {
+		if out[i] != src[i] {
+			h.violate("wrong-bits", "buffer", "bits written to a bitio.Buffer in pieces and read back in pieces differ at bit %d of %d (from %s at bit %d)", i, total, n.desc, start)
+			return
+		}
+	}
 }
 
 type simSink struct {
